@@ -80,7 +80,7 @@ Definition C10_outside_known_full : Prop := forall latest annual rows,
   K_zero_balance_acb exact latest rows = false ->
   roundtrip_ok exact latest annual rows = true.
 
-(* ------------------------------------------------------------------ C10_roundtrip_partial
+(* ------------------------------------------------------------------ what is proved (partial)
    (1) the row generated for an affiliate holding (shares > 0, cost base) is
    the purchase of those shares at cost base / shares, and
    (2) running the generated purchases alone - any number of affiliates, in
@@ -132,6 +132,45 @@ Check C10_later_rows_reproduced : forall rows bef1 bef2 s1 s2 ds,
   run_loop exact bef1 s1 rows = (ds, None) -> Forall quiet_delta ds ->
   run_loop exact bef2 s2 rows = (ds, None).
 Print Assumptions C10_later_rows_reproduced.
+
+(* (4) = (2) + (3): the round trip for the simple mode when the whole prefix is
+   summarisable and no later row goes through the superficial-loss rule.
+   [s1]/[bef1]: ledger state and rows of the full history at the cut; [hs]:
+   the holdings the summary purchases are generated from (every affiliate
+   holding shares; all others hold nothing and have no cost base - the
+   complement of K_zero_balance_acb).  Then summary ++ later rows is accepted
+   and reports the later rows EXACTLY as the full history does, after rows
+   rebuilding the holdings. *)
+Theorem C10_roundtrip_partial : forall like (hs : list hold_row) later bef1 s1 ds,
+  hs <> [] ->
+  NoDup (map (fun h : hold_row => af_id (fst (fst h))) hs) ->
+  Forall (fun h : hold_row => holding_ok (fst (fst h)) (snd (fst h))) hs ->
+  ps_all s1 = total_held hs ->
+  (forall af, core_of s1 af = match find_hold hs af with
+                              | Some h => (s_sh (snd (fst h)), s_acb (snd (fst h)))
+                              | None => (0%Qc, if af_reg af then None else Some 0%Qc)
+                              end) ->
+  run_loop exact bef1 s1 later = (ds, None) -> Forall quiet_delta ds ->
+  exists dss,
+    run exact None (map (hold_tx like) hs ++ later) = (dss ++ ds, None)
+    /\ map (fun d => (s_sh (d_post d), s_acb (d_post d))) dss
+       = map (fun h : hold_row => (s_sh (snd (fst h)), s_acb (snd (fst h)))) hs.
+Proof. exact simple_roundtrip_quiet. Qed.
+Check C10_roundtrip_partial : forall like (hs : list hold_row) later bef1 s1 ds,
+  hs <> [] ->
+  NoDup (map (fun h : hold_row => af_id (fst (fst h))) hs) ->
+  Forall (fun h : hold_row => holding_ok (fst (fst h)) (snd (fst h))) hs ->
+  ps_all s1 = total_held hs ->
+  (forall af, core_of s1 af = match find_hold hs af with
+                              | Some h => (s_sh (snd (fst h)), s_acb (snd (fst h)))
+                              | None => (0%Qc, if af_reg af then None else Some 0%Qc)
+                              end) ->
+  run_loop exact bef1 s1 later = (ds, None) -> Forall quiet_delta ds ->
+  exists dss,
+    run exact None (map (hold_tx like) hs ++ later) = (dss ++ ds, None)
+    /\ map (fun d => (s_sh (d_post d), s_acb (d_post d))) dss
+       = map (fun h : hold_row => (s_sh (snd (fst h)), s_acb (snd (fst h)))) hs.
+Print Assumptions C10_roundtrip_partial.
 
 (* ------------------------------------------------------------------ C10_annual_gains
    Annual mode: a generated 1-share sale at (per-share cost + gain) with
@@ -192,4 +231,18 @@ Example C10_later_rows_nonvacuous :
   snd (run_loop exact [] ex_s1 ex_later) = None
   /\ length (fst (run_loop exact [] ex_s1 ex_later)) = 2%nat
   /\ run_loop exact [wrow 0 1 (wbuy 1 1) default_aff] ex_s2 ex_later = run_loop exact [] ex_s1 ex_later.
+Proof. vm_compute. repeat split. Qed.
+
+(* and of C10_roundtrip_partial: the holdings [default: 10 shares, $100] match
+   the state ex_s1; the two later rows follow the generated purchase *)
+Definition ex_hs1 : list hold_row :=
+  [(default_aff, {| s_sh := wq 10 1; s_all := wq 10 1; s_acb := Some (wq 100 1) |}, 50%Z)].
+Example C10_roundtrip_partial_nonvacuous :
+  ps_all ex_s1 = total_held ex_hs1
+  /\ core_of ex_s1 default_aff = (wq 10 1, Some (wq 100 1))
+  /\ core_of ex_s1 spouse_aff = (wq 0 1, Some (wq 0 1))
+  /\ snd (run_loop exact [] ex_s1 ex_later) = None
+  /\ run exact None (map (hold_tx (wrow 0 0 (wbuy 1 1) default_aff)) ex_hs1 ++ ex_later)
+     = (fst (run exact None (map (hold_tx (wrow 0 0 (wbuy 1 1) default_aff)) ex_hs1))
+          ++ fst (run_loop exact [] ex_s1 ex_later), None).
 Proof. vm_compute. repeat split. Qed.
